@@ -35,6 +35,7 @@ type Engine struct {
 	verbose bool
 	specDone map[string]bool
 	prune   func(st *State, cond string) (bool, bool)
+	localOK map[*ssa.Alloc]bool
 	axiomsDone bool
 }
 
@@ -350,6 +351,21 @@ func (e *Engine) load(st *State, a Val, pos token.Pos) Val {
 			panic(unsupported("load of unknown cell"))
 		}
 		return v
+	case KCellPath:
+		cv, ok := st.cells[a.Cell]
+		if !ok {
+			panic(unsupported("load of unknown cell"))
+		}
+		t := cv.T
+		cur := a.Root
+		for _, idx := range a.Path {
+			si := e.d.StructOf(cur)
+			t = app(si.Fields[idx], t)
+			cur = si.T.Field(idx).Type()
+		}
+		v := term(t, e.d.SortOf(cur), cur)
+		e.assumeTyped(st, v)
+		return v
 	case KField:
 		et := elemType(a.Typ)
 		v := term(sel(st.heapGet(a.Heap), a.Base), e.d.SortOf(et), et)
@@ -395,7 +411,15 @@ func (e *Engine) store(st *State, a Val, v Val) {
 		if st.dry != nil {
 			st.dry.mod.cells[a.Cell] = true
 		}
+	case KCellPath:
+		cv := st.cells[a.Cell]
+		nv := e.updatePath(cv.T, a.Root, a.Path, e.asTerm(st, v))
+		st.cells[a.Cell] = term(nv, cv.S, cv.Typ)
+		if st.dry != nil {
+			st.dry.mod.cells[a.Cell] = true
+		}
 	case KField:
+		e.onWrite(st, a, v)
 		e.heapStore(st, a.Heap, a.Base, e.asTerm(st, v))
 	case KElem:
 		cur := st.heapGet(a.Heap)
@@ -637,6 +661,20 @@ func (e *Engine) safety(st *State, class string, instr ssa.Instruction, goal str
 	if len(detail) > 70 {
 		detail = detail[:70]
 	}
+	// a run-time panic here is acceptable only under the function's declared `aborts when` conditions
+	if st.dry == nil && goal != "true" {
+		root := st.frames[0]
+		if root.fc != nil && len(root.fc.Aborts) > 0 {
+			var alts []string
+			for _, c := range root.fc.Aborts {
+				env := e.envFor(st, root, nil)
+				alts = append(alts, e.evalBool(env, c))
+			}
+			e.oblige(st, "safety:"+class, pos, detail, or(append([]string{goal}, alts...)...))
+			st.assume(goal) // execution continues only if the operation did not panic
+			return
+		}
+	}
 	e.oblige(st, "safety:"+class, pos, detail, goal)
 }
 
@@ -868,4 +906,58 @@ func (e *Engine) mkBconcat(st *State, a, b string) string {
 	e.bytesFacts(st, b)
 	e.fact(st, "bconcat:"+r, fmt.Sprintf("(and (= (blen %s) (+ (blen %s) (blen %s))) (>= (bcap %s) (blen %s)) (=> (bnilp %s) (= (blen %s) 0)))", r, a, b, r, r, r, r))
 	return r
+}
+
+// onWrite emits the `onwrite` obligations of the function under verification for a store to a struct field.
+func (e *Engine) onWrite(st *State, a Val, v Val) {
+	if st.dry != nil || len(st.frames) == 0 {
+		return
+	}
+	root := st.frames[0]
+	if root.fc == nil || len(root.fc.OnWrites) == 0 {
+		return
+	}
+	for _, ow := range root.fc.OnWrites {
+		suffix := "_" + ow.Type + "_" + sanitize(ow.Field)
+		if !strings.HasSuffix(a.Heap, suffix) {
+			continue
+		}
+		env := e.envFor(st, root, nil)
+		nv := v
+		if nv.K != KTerm {
+			nv = term(e.asTerm(st, v), SRef, nil)
+		}
+		env.vars["newval"] = nv
+		fr := st.top()
+		pos := fr.fn.Pos()
+		if fr.idx > 0 && fr.idx <= len(fr.blk.Instrs) {
+			pos = nearestPos(fr.blk.Instrs[fr.idx-1])
+		}
+		d := ow.C.Tag
+		if d == "" {
+			d = ow.C.Text
+		}
+		e.oblige(st, "onwrite("+ow.Type+"."+ow.Field+")", pos, d, e.evalBool(env, ow.C))
+	}
+}
+
+// updatePath returns the struct value `val` (of type t) with the field at `path` replaced by nv.
+func (e *Engine) updatePath(val string, t types.Type, path []int, nv string) string {
+	si := e.d.StructOf(t)
+	var parts []string
+	for i := range si.Fields {
+		if i == path[0] {
+			if len(path) == 1 {
+				parts = append(parts, nv)
+			} else {
+				parts = append(parts, e.updatePath(app(si.Fields[i], val), si.T.Field(i).Type(), path[1:], nv))
+			}
+		} else {
+			parts = append(parts, app(si.Fields[i], val))
+		}
+	}
+	if len(parts) == 0 {
+		return "mk_" + si.Name
+	}
+	return fmt.Sprintf("(mk_%s %s)", si.Name, strings.Join(parts, " "))
 }
